@@ -1,18 +1,28 @@
 """C17 — modules run once and expose exactly their exports.  DESIGN.md §5 C17.
 
 Streams
-  graphs   random multi-file programs (<= 6 modules, nested directories, all import forms, diamonds,
-           repeated imports, exported / private let, fn, class, accessor functions over private state,
-           one optional failing import) written to work/c17_<pid>/ and run with `vharness run`.
+  graphs   random multi-file programs (<= 6 modules, directories up to three levels deep, all import
+           forms, diamonds, repeated imports, exported / private let, fn, class, accessor functions over
+           private state, imports from packages other than `self`, one optional failing import) written
+           to work/c17_<pid>/ and run with `vharness run`.  File names deliberately include the names of
+           packages and library modules (`std.lay`, `io.lay`, `std/io.lay`, `math.lay`): a user module
+           named like a package must stay a module of `self` (repaired finding D25-module-shadows-package).
+  stdpaths every import `PKG.p` for PKG = std and p over a fixed universe of segments (all paths of <= 2
+           segments, 3 below the library's nested modules) plus other package names, each next to user
+           files of the same names that must never run (repaired finding DC17.1): the model's table of
+           the standard library (`stdModules`) against the implementation, exhaustively.
 Judgements (separately)
-  implementation-vs-Spec   `spec_run` (a 60-line recursive reference: run-once flag + export map per
-                           module) and the stdout-only monitor `monitor` (every body marker exactly
-                           once, properly nested, nothing printed by an importer while its import runs)
-  model-vs-implementation  `drv_imports` (Lean `Model/Imports.lean`: cache, package tree walk, child
-                           fibers, rewind/retry) must print exactly what the implementation prints.
-Known finding D19 (find_missing_module looks up path[0] at every level) is replayed from
-known_findings/D19-nested-import/ and its signature (import paths with >= 3 segments below `self`, or
-`self.a.a`) is excluded from the generator.
+  implementation-vs-Spec   `spec_run` (a 70-line recursive reference: run-once flag + export map per
+                           module; `self.` names files, `std.` the standard library, nothing else is a
+                           package) and the stdout-only monitor `monitor` (every body marker exactly once,
+                           properly nested, nothing printed by an importer while its import runs)
+  model-vs-implementation  `drv_imports` (Lean `Model/Imports.lean`: cache, package map, package tree
+                           walk, child fibers, rewind/retry) must print exactly what the implementation prints.
+corpus/C17/*.json run first; entries with an `expect` field also pin the Spec's own answer (the witnesses of
+the repaired findings D19, D25-module-shadows-package and DC17.1 are 06-08).
+Known finding DC17.2 (a completing launched fiber wakes an importer that sleeps on its import, which then
+sees the half-initialised module) is replayed from known_findings/DC17.2-child-completion-wakes-importer/;
+generated programs launch no fibers, which is its signature.
 """
 import json
 import os
@@ -24,12 +34,15 @@ from .. import common
 PROP = "C17"
 LEVEL = "proof"
 DRV = os.path.join(common.LEAN, ".lake", "build", "bin", "drv_imports")
-KF_ID = "D19-nested-import"
+KF_ID = "DC17.2-child-completion-wakes-importer"
 KF_DIR = os.path.join(common.VERIF, "known_findings", KF_ID)
 
-TOP = ["a", "b", "c", "d", "u"]
-SUB = ["u", "a", "w", "b"]
+# file names: plain ones and the names of packages / library modules (`self` is a keyword, not a name)
+TOP = ["a", "b", "c", "d", "u", "std", "io", "math", "std", "io"]
+SUB = ["u", "a", "w", "b", "io", "std", "stdio"]
 SYMS = ["x", "y", "f", "g", "C", "D", "h", "k"]
+# what the Spec knows about the standard library: its modules (paths below `std`)
+STD_MODULES = [["math"], ["io"], ["io", "stdio"], ["io", "fs"], ["env"], ["regexp"]]
 
 # ---------------------------------------------------------------------------------------------
 # graphs: {"main": [stmt...], "files": {"a/b": [stmt...]}}; a stmt is a list of words in the
@@ -45,9 +58,8 @@ def prefixes(key):
     return ["/".join(p[:i]) for i in range(1, len(p) + 1)]
 
 
-def d19_signature(key):
-    p = path_of(key)
-    return len(p) >= 3 or (len(p) == 2 and p[0] == p[1])
+def pkg_path(word):
+    return [] if word == "-" else word.split("/")
 
 
 def static_exports(body):
@@ -72,6 +84,8 @@ def binding_names(st):
         return [st[2]]
     if st[0] == "importsyms":
         return [s.split(":")[-1] for s in st[2:]]
+    if st[0] == "importpkg":
+        return [st[3]]
     return []
 
 
@@ -81,13 +95,16 @@ def gen_graph(rng, allow_fail=True):
     tries = 0
     while len(keys) < nfiles and tries < 50:
         tries += 1
-        if keys and rng.random() < 0.45:
-            tops = [k for k in keys if "/" not in k]
-            parent = rng.choice(tops) if tops and rng.random() < 0.85 else rng.choice(TOP)
+        if keys and rng.random() < 0.5:
+            parents = [k for k in keys if k.count("/") < 2]
+            deep = [k for k in parents if "/" in k]
+            if deep and rng.random() < 0.45:
+                parents = deep
+            parent = rng.choice(parents) if parents and rng.random() < 0.85 else rng.choice(TOP)
             k = parent + "/" + rng.choice(SUB)
         else:
             k = rng.choice(TOP)
-        if k in keys or d19_signature(k):
+        if k in keys:
             continue
         keys.append(k)
     order = keys[:]
@@ -128,6 +145,7 @@ def gen_body(rng, me, rank, fileset, bodies, counter, fail_here):
     used = set()
     lets = []
     objs = {}     # local name -> target key
+    fobjs = []    # local names bound to modules of the standard library
     syms = {}     # local name -> kind
     ntag = [0]
 
@@ -173,6 +191,19 @@ def gen_body(rng, me, rank, fileset, bodies, counter, fail_here):
             syms[name] = "acc"
         elif r < 0.44 and lets:
             body.append(["assign", rng.choice(lets), str(val())])
+        elif r < 0.52 and rng.random() < 0.6:
+            # a module of the standard library — whatever user files are called
+            path = rng.choice([[]] + STD_MODULES * 2)
+            last = path[-1] if path else "std"
+            if last not in used and rng.random() < 0.5:
+                local = last
+                used.add(last)
+            else:
+                local = fresh_name(["p1", "p2", "p3", "p4", "p5", "p6"])
+            body.append(["importpkg", "std", "/".join(path) or "-", local])
+            fobjs.append(local)
+            for _ in range(rng.randint(0, 2)):
+                body.append(["show", tag(), "field", local, rng.choice(SYMS + ["zz"])])
         elif r < p_import and complete:
             t = rng.choice(complete)
             tdecl = static_exports(bodies[t])
@@ -214,7 +245,9 @@ def gen_body(rng, me, rank, fileset, bodies, counter, fail_here):
                 body.append(["show", tag(), "field", local, rng.choice(cands)])
         else:
             # use something already bound
-            if objs and rng.random() < 0.6:
+            if fobjs and rng.random() < 0.2:
+                body.append(["show", tag(), "field", rng.choice(fobjs), rng.choice(SYMS + ["zz"])])
+            elif objs and rng.random() < 0.6:
                 o = rng.choice(sorted(objs))
                 tdecl = static_exports(bodies[objs[o]])
                 cands = [x for x, (_, e) in tdecl.items() if e] * 3 + list(tdecl.keys()) + ["zz"]
@@ -229,7 +262,22 @@ def gen_body(rng, me, rank, fileset, bodies, counter, fail_here):
 
 def gen_failing_import(rng, me, complete, fileset, bodies, used):
     r = rng.random()
-    if r < 0.45 or not complete:
+    if r < 0.35:
+        # packages other than `self`: a module the library does not have (also when a user file of that
+        # name exists), or a package that does not exist (also when it is the name of a user module)
+        users = sorted(fileset)
+        c = rng.random()
+        if c < 0.3:
+            pkg, path = "std", rng.choice(["nope", "io/nope", "std", "io/io", "math/x", "stdio", "fs"])
+        elif c < 0.55 and users:
+            pkg, path = "std", rng.choice(users)                 # `std.a.u` next to a/u.lay
+        elif c < 0.85 and users:
+            k = path_of(rng.choice(users))                       # `a.u` / `a` for the user module a/u.lay / a.lay
+            pkg, path = k[0], "/".join(k[1:]) or "-"
+        else:
+            pkg, path = rng.choice(["nope", "lib", "stdio", "Self"]), rng.choice(["-", "x", "io"])
+        return ["importpkg", pkg, path, "zq"]
+    if r < 0.60 or not complete:
         # a module that does not exist: top level, or below an existing / a missing parent
         tops = [k for k in fileset if "/" not in k and k != me and k in complete]
         if tops and rng.random() < 0.5:
@@ -258,8 +306,6 @@ def gen_failing_import(rng, me, complete, fileset, bodies, used):
 def wf(graph):
     keys = set(graph["files"])
     for k, body in [("", graph["main"])] + list(graph["files"].items()):
-        if d19_signature(k) and k:
-            return False
         declared = set()
         lets = set()
         for st in body:
@@ -269,7 +315,7 @@ def wf(graph):
                 declared.add(b)
             if st[0] == "decl" and st[2] == "let":
                 lets.add(st[3])
-            if st[0] in ("import", "importas", "importsyms") and (d19_signature(st[1])):
+            if st[0] == "importpkg" and (st[1] == "self" or len(st) != 4):
                 return False
             if st[0] == "importsyms" and len(st) < 3:
                 return False
@@ -343,6 +389,13 @@ def spec_run(graph):
                     if sym not in m["exports"]:
                         raise SpecStop("error:ImportError:Symbol %s not exported from module %s" % (sym, path_of(st[1])[-1]))
                     me["syms"][w.split(":")[-1]] = m["syms"][sym]
+            elif op == "importpkg":
+                # `std` is the standard library, no other package than `std` and `self` exists
+                path = pkg_path(st[2])
+                if st[1] == "std" and (path == [] or path in STD_MODULES):
+                    me["syms"][st[3]] = ("obj", path[-1] if path else "std", {})
+                else:
+                    raise SpecStop("error:ImportError:Module %s not found" % ".".join([st[1]] + path))
             elif op == "show":
                 if st[2] == "sym":
                     show(st[1], me["syms"][st[3]])
@@ -468,6 +521,9 @@ def render_body(graph, key, info):
                 a = w.split(":")
                 items.append(a[0] if len(a) == 1 else "%s as %s" % (a[0], a[1]))
             out.append("import self.%s: {%s};" % (".".join(path_of(st[1])), ", ".join(items)))
+        elif op == "importpkg":
+            segs = [st[1]] + pkg_path(st[2])
+            out.append("import %s%s;" % (".".join(segs), "" if segs[-1] == st[3] else " as " + st[3]))
         elif op == "show":
             if st[2] == "sym":
                 kind = me["syms"].get(st[3], "let")
@@ -507,9 +563,9 @@ def driver_lines(graph):
     return ls
 
 
-def model_run(graphs, fixed=False):
+def model_run(graphs):
     lines = [l for g in graphs for l in driver_lines(g)]
-    rc, out, err = common.run_lines([DRV] + (["fixed"] if fixed else []), lines, timeout=1200)
+    rc, out, err = common.run_lines([DRV], lines, timeout=1200)
     res = []
     for o in out:
         parts = o.split("|")
@@ -616,16 +672,61 @@ def payload(graph, rec, model, kind, msg, seed, workdir):
             "replay": "./check C17 --replay <this file>"}
 
 
-def stream_graphs(ctx, n, workdir, label="graphs", seed_mul=7919, search=False):
+def load_corpus(ctx):
+    """corpus/C17/*.json, run first.  An entry with `expect` pins what the Spec itself must answer, so
+    that a regression input of a repaired finding cannot be blessed by a change of the reference."""
+    graphs = []
+    corpus = os.path.join(common.VERIF, "corpus", "C17")
+    if os.path.isdir(corpus):
+        for f in sorted(os.listdir(corpus)):
+            if not f.endswith(".json"):
+                continue
+            item = json.load(open(os.path.join(corpus, f)))
+            graphs.append(item["graph"])
+            if "expect" in item:
+                sst, sout = spec_run(item["graph"])
+                if [sst, sout] != [item["expect"]["status"], item["expect"]["out"]]:
+                    ctx.violation("corpus_expect", {"kind": "implementation-vs-spec", "broken": "corpus/C17/%s: the reference "
+                                  "`spec_run` no longer gives the recorded expected result" % f,
+                                  "expect": item["expect"], "spec": [sst, sout]}, no_input=True)
+    return graphs
+
+
+def std_path_graphs():
+    """Every import from a package other than `self` over a small universe, next to user files that carry
+    the same names (and must never run): the library's module table, exhaustively."""
+    segs = ["io", "stdio", "fs", "math", "env", "regexp", "std", "global", "time", "nope", "a"]
+    paths = [[]] + [[x] for x in segs] + [[x, y] for x in segs for y in segs]
+    paths += [["io", m, y] for m in ("stdio", "fs") for y in segs]
+    cases = [("std", p) for p in paths]
+    cases += [(pkg, p) for pkg in ("io", "math", "a", "nope", "stdio", "global", "Self", "selfx")
+              for p in ([], ["io"], ["a"], ["io", "stdio"])]
+    users = ["std", "io", "math", "a", "nope", "time", "global", "io/nope", "io/a", "io/stdio", "std/io", "a/io", "io/stdio/a"]
+    graphs = []
+    for n, (pkg, path) in enumerate(cases):
+        files = {}
+        for i, k in enumerate(users):
+            t = k.replace("/", "_")
+            files[k] = [["mark", "<" + t], ["decl", "1", "let", "q", str(200 + i)], ["mark", ">" + t]]
+        main = [["mark", "<main"], ["importpkg", pkg, "/".join(path) or "-", "m"], ["show", "main1", "field", "m", "q"]]
+        if n % 3 == 0:      # the user modules of those names are loaded first / afterwards as well
+            main[1:1] = [["importas", "io", "q1"], ["importas", "std/io", "q2"], ["importas", "a", "q3"]]
+        elif n % 3 == 1:
+            main += [["importas", "std", "q1"], ["show", "main2", "field", "q1", "q"], ["importas", "io/stdio", "q2"]]
+        main.append(["mark", ">main"])
+        graphs.append({"main": main, "files": files})
+    return graphs
+
+
+def stream_graphs(ctx, n, workdir, label="graphs", seed_mul=7919, search=False, fixed_graphs=None):
     rng = random.Random(ctx.seed * seed_mul + 17)
     graphs = []
-    if not search:
-        corpus = os.path.join(common.VERIF, "corpus", "C17")
-        if os.path.isdir(corpus):
-            for f in sorted(os.listdir(corpus)):
-                graphs.append(json.load(open(os.path.join(corpus, f)))["graph"])
+    if fixed_graphs is not None:
+        graphs = list(fixed_graphs)
+    elif not search:
+        graphs = load_corpus(ctx)
     ncorpus = len(graphs)
-    while len(graphs) < n + ncorpus:
+    while fixed_graphs is None and len(graphs) < n + ncorpus:
         g = gen_graph(rng)
         if not wf(g):
             ctx.stream_stat(label, generator_rejects=1)
@@ -633,7 +734,9 @@ def stream_graphs(ctx, n, workdir, label="graphs", seed_mul=7919, search=False):
         graphs.append(g)
     stats = {"graphs": 0, "modules_run": 0, "import_stmts": 0, "whole": 0, "renamed": 0, "selected": 0, "nested_paths": 0,
              "repeat_imports": 0, "diamonds": 0, "private_field_probes": 0, "import_errors_missing_module": 0,
-             "import_errors_not_exported": 0, "accessor_decls": 0, "values_shown": 0, "same_last_segment": 0}
+             "import_errors_not_exported": 0, "accessor_decls": 0, "values_shown": 0, "same_last_segment": 0,
+             "deep_paths": 0, "package_imports": 0, "package_import_errors": 0, "files_named_like_packages": 0,
+             "graphs_with_file_named_like_package_and_std_import": 0}
     first = None
     CH = 400
     for off in range(0, len(graphs), CH):
@@ -651,15 +754,21 @@ def stream_graphs(ctx, n, workdir, label="graphs", seed_mul=7919, search=False):
                         stats[{"import": "whole", "importas": "renamed", "importsyms": "selected"}[st[0]]] += 1
                         stats["nested_paths"] += "/" in st[1]
                         targets.append((k, st[1]))
-                    if st[0] == "show" and st[2] == "field":
-                        pass
+                        stats["deep_paths"] += st[1].count("/") >= 2
+                    if st[0] == "importpkg":
+                        stats["package_imports"] += 1
             stats["repeat_imports"] += len(targets) - len(set(targets))
             imps = {}
             for k, t in set(targets):
                 imps.setdefault(t, set()).add(k)
             stats["diamonds"] += any(len(v) > 1 for v in imps.values())
             stats["private_field_probes"] += sum(1 for l in sout if l.endswith("=!"))
-            stats["import_errors_missing_module"] += "not found" in sst
+            stats["import_errors_missing_module"] += "not found" in sst and "Module self." in sst
+            stats["package_import_errors"] += "not found" in sst and "Module self." not in sst
+            named = sum(1 for k in g["files"] if set(path_of(k)) & {"std", "io", "math", "stdio"})
+            stats["files_named_like_packages"] += named
+            stats["graphs_with_file_named_like_package_and_std_import"] += bool(named) and any(
+                st[0] == "importpkg" and st[1] == "std" for b in [g["main"]] + list(g["files"].values()) for st in b)
             stats["import_errors_not_exported"] += "not exported" in sst
             stats["values_shown"] += sum(1 for l in sout if "=" in l and not l.endswith("=!"))
             stats["accessor_decls"] += sum(1 for b in [g["main"]] + list(g["files"].values()) for st in b if st[0] == "acc")
@@ -675,7 +784,7 @@ def stream_graphs(ctx, n, workdir, label="graphs", seed_mul=7919, search=False):
             break
     ctx.stream_stat(label, **stats)
     ctx.cov["traces_validated_against_impl"] += stats["graphs"]
-    if graphs and not search:
+    if graphs and not search and fixed_graphs is None:
         g = graphs[ncorpus] if len(graphs) > ncorpus else graphs[0]
         ctx.sample({"driver_lines": driver_lines(g)[:40], "spec": spec_run(g)})
     if first is None:
@@ -694,46 +803,23 @@ def stream_graphs(ctx, n, workdir, label="graphs", seed_mul=7919, search=False):
 
 
 def replay_known(ctx):
-    """D19: replay the committed witness directory; still panicking -> KNOWN-FINDING line."""
+    """DC17.2: a fiber launched before a top-level import completes while the imported module's body is
+    parked on a channel; `Fiber::complete` wakes the sleeping importer (parent bias), the retried import
+    finds the module in the tree and hands it out half initialised."""
     main = os.path.join(KF_DIR, "main.lay")
-    if not os.path.exists(main):
-        return
     finding = next((f for f in common.load_findings(PROP) if f["id"] == KF_ID), None)
-    rec = common.run_batch([main])[0]
-    graph = json.load(open(os.path.join(KF_DIR, "graph.json")))
-    pinned = model_run([graph])[0]
-    fixed = model_run([graph], fixed=True)[0]
-    ist, iout = impl_view(rec)
-    ctx.cov["D19_witness"] = {"impl": [ist, iout], "model_pinned": pinned["raw"], "model_repaired": fixed["raw"]}
-    if (ist, iout) == (fixed["status"], fixed["out"]):
-        ctx.cov["D19_witness"]["note"] = "witness passes: the implementation behaves like the repaired walk (finding no longer reproduces)"
-        return
-    if ist.startswith("panic") and finding:
-        ctx.known(KF_ID, finding["what"])
-        if (ist, iout) != (pinned["status"], pinned["out"]):
-            ctx.cov["D19_witness"]["note"] = "panics, but not with the message/output the pinned model predicts"
-        return
-    ctx.violation("d19_witness", {"kind": "implementation-vs-spec", "what": "the three-level import witness neither panics (D19) nor "
-                                  "behaves like the repaired model", "impl": rec, "model_pinned": pinned["raw"],
-                                  "model_repaired": fixed["raw"], "graph": graph, "witness": KF_DIR})
-
-
-def replay_known_shadow(ctx):
-    """D25: a user module named like a package replaces that package."""
-    fid = "D25-module-shadows-package"
-    main = os.path.join(common.VERIF, "known_findings", fid, "main.lay")
-    finding = next((f for f in common.load_findings(PROP) if f["id"] == fid), None)
     if not os.path.exists(main) or not finding:
         return
     rec = common.run_batch([main])[0]
-    ctx.cov["D25_witness"] = {"status": rec.get("status"), "stdout": rec.get("stdout"), "stderr": rec.get("stderr", "")[-300:]}
-    if rec.get("status") == "Ok:0" and rec.get("stdout") == "std body\n1\nio imported\n":
-        ctx.cov["D25_witness"]["note"] = "witness passes (finding no longer reproduces)"
-    elif "Module std.io not found" in rec.get("stderr", ""):
-        ctx.known(fid, finding["what"])
+    ctx.cov["DC17_2_witness"] = {"status": rec.get("status"), "stdout": rec.get("stdout"), "stderr": rec.get("stderr", "")[-300:]}
+    out = [l for l in rec.get("stdout", "").split("\n") if l]
+    if rec.get("status") == "Ok:0" and out[-2:] == [">slow", "main sees ready=1"] and out.count("<slow") == 1:
+        ctx.cov["DC17_2_witness"]["note"] = "witness passes (finding no longer reproduces)"
+    elif "Undefined property ready" in rec.get("stderr", "") and ">slow" not in out:
+        ctx.known(KF_ID, finding["what"])
     else:
-        ctx.violation("d25_witness", {"kind": "implementation-vs-spec", "what": "the package-shadowing witness neither passes nor fails "
-                                      "the known way", "impl": rec, "witness": main})
+        ctx.violation("dc17_2_witness", {"kind": "implementation-vs-spec", "what": "the early-wake witness neither passes nor fails "
+                                         "the known way", "impl": rec, "witness": main})
 
 
 def run(ctx):
@@ -745,12 +831,14 @@ def run(ctx):
         return
     workdir = os.path.join(common.VERIF, "work", "c17_%d" % os.getpid())
     os.makedirs(workdir, exist_ok=True)
-    ctx.cov["rule"] = ("random acyclic module graphs: 1-5 files + main in a temporary directory, nested one directory deep (import paths "
-                       "of 1-2 segments; the D19 signature is excluded), bodies of 2-8 statements mixing exported/private let, fn, class, "
+    ctx.cov["rule"] = ("random acyclic module graphs: 1-5 files + main in a temporary directory, nested up to three directories deep (import "
+                       "paths of 1-3 segments, also `self.a.a`), file names drawn from plain names and the names of packages / library "
+                       "modules (std, io, math, stdio), bodies of 2-8 statements mixing exported/private let, fn, class, "
                        "accessor functions over module state, assignments, whole/renamed/selected-symbol imports (repeated, diamond, "
-                       "module importing its own child), probes of exported/private/unknown fields, and at most one failing import "
-                       "(missing module at top level / below an existing parent / below a missing parent, non-exported or unknown symbol); "
-                       "non-trivial = at least three module bodies ran; distinct by the driver rendering of the graph")
+                       "module importing its own child), imports of the standard library's modules, probes of exported/private/unknown "
+                       "fields, and at most one failing import (missing module at top level / below an existing parent / below a missing "
+                       "parent, non-exported or unknown symbol, a module the library lacks, the bare name of a user module used as a "
+                       "package); non-trivial = at least three module bodies ran; distinct by the driver rendering of the graph")
     try:
         n = ctx.n(6000, 40000)
         if not proved:
@@ -780,8 +868,18 @@ def run(ctx):
                 else:
                     pl["broken"] = "correspondence stream graphs (Model/Imports.lean vs op_import/op_import_symbol/import_module)"
                     ctx.violation("graphs_tie", pl, no_input=True)
+        if ok:
+            ok3, found3 = stream_graphs(ctx, 0, workdir, label="stdpaths", fixed_graphs=std_path_graphs())
+            if not ok3:
+                kind, pl = found3
+                if kind == "spec":
+                    ctx.cov["impl_vs_spec_failures"] += 1
+                    ctx.violation("stdpaths_spec", pl)
+                else:
+                    ctx.cov["model_vs_impl_disagreements"] += 1
+                    pl["broken"] = "correspondence stream stdpaths (Model/Imports.lean stdModules / importForeign vs create_std_lib / import_module)"
+                    ctx.violation("stdpaths_tie", pl, no_input=True)
         replay_known(ctx)
-        replay_known_shadow(ctx)
     finally:
         shutil.rmtree(workdir, ignore_errors=True)
     ctx.assumptions += [
@@ -789,6 +887,8 @@ def run(ctx):
         "module bodies are abstracted to declarations, assignments, imports and prints; the evaluation of arbitrary expressions is C01-C04's subject",
         "only module-level imports exist (the compiler rejects `import` anywhere else), so an import error cannot be caught and ends the run",
         "graphs are acyclic (hypothesis of C17_body_once); cyclic imports observe half-initialised modules by design of the loader",
+        "the module_cache entries of imports from packages other than `self` are not modelled (the library's tree never changes, so a hit and a walk agree); repeated std imports are in the stream",
+        "programs that start other fibers before or inside an import are outside the model (known finding DC17.2)",
     ]
 
 
